@@ -1318,7 +1318,7 @@ class BuildIndex(PContract):
         ex.oblige(self.oname("frame:reads_only"), ctx.fs.eq(ctx.fs0))
         if outcome[0] == "raise":
             import json as _json
-            ex.oblige(self.oname("raises:only_lookup_or_decode_errors"), z3.BoolVal(isinstance(outcome[1], (KeyError, _json.JSONDecodeError)) or type(outcome[1]).__name__ in ("JobsCorruptedError", "WorkspaceError")), note=repr(outcome[1]))
+            ex.oblige(self.oname("raises:only_lookup_or_decode_errors"), z3.BoolVal(isinstance(outcome[1], (KeyError, _json.JSONDecodeError, UnicodeDecodeError)) or type(outcome[1]).__name__ in ("JobsCorruptedError", "WorkspaceError")), note=repr(outcome[1]))
 
 
 CONTRACTS += [BuildIndex()]
